@@ -267,6 +267,7 @@ def run(ctx: Ctx):
         inv.run_inv(p, "C06.1a", floor_classes=40, floor_nontrivial=30, exceptions=INV_EXCEPTIONS),
         inv.run_inv_overrides(p, "C06.1b", floor=6),
         inv.run_inv_monitored(p, "C06.1c", floor=6),
+        inv.run_inv_bypass(p, "C06.1d", floor=4),
         canv.run_guard(p, "C06.2a", floor=9),
         canv.run_canv(p, "C06.2b", floor=35, exceptions=CANV_EXCEPTIONS),
         fresh.run_fresh(p, "C06.2c", ["urwid.canvas"], floor=30),
@@ -282,6 +283,7 @@ from ..mutants import Mut  # noqa: E402
 
 MUTANTS = [
     Mut("set-text-no-invalidate", "urwid/widget/text.py", "Text.set_text", "        self._invalidate()\n", "", "INV|widget.text.Text.set_text"),
+    Mut("columns-focus-callback-bypasses-memo", "urwid/widget/columns.py", "Columns.__init__", "self._contents.set_focus_changed_callback(lambda f: self._invalidate())", "self._contents.set_focus_changed_callback(lambda f: super(Columns, self)._invalidate())", "INV-BYPASS|"),
     Mut("pad-bottom-shared-shards", "urwid/canvas.py", "CompositeCanvas.pad_trim_top_bottom", "            if orig_shards is self.shards:\n                self.shards = self.shards.copy()\n", "", "FRESHLIST|canvas.CompositeCanvas.pad_trim_top_bottom"),
     Mut("padding-zero-cols-no-depends", "urwid/widget/padding.py", "Padding.render", "            canv = CompositeCanvas(canv)\n            canv.set_depends([self._original_widget])\n            return canv", "            return CompositeCanvas(canv)", "DEPENDS|widget.padding.Padding.render"),
     Mut("trim-unguarded", "urwid/canvas.py", "CompositeCanvas.trim_end", "        if self.widget_info:\n            raise self._finalized_error\n", "", "GUARD|"),
